@@ -10,7 +10,7 @@ from ..fnharness import FnCase, run_cases
 from ..loops import InvLoop
 from ..engine import Path
 from ..strmodels import joinnl_of, int_of_bytes, bytes_of_int, pow256, StrSeq
-from .plainops import build_plain, set_cell, get_cell, T0
+from .plainops import build_plain, set_cell, get_cell, bind, T0
 from z3 import StringVal, StringSort, Contains, BitVecSort, String
 
 S_ = String('chunk'); ACC = String('acc0')
@@ -60,7 +60,8 @@ class LineUnframe(FnCase):
         self.eng = eng
         q, hs, obs = build_plain(eng, p, 'rxsci.framing.line', 'unframe', [])
         self.h = hs[self.handler]
-        set_cell(q, self.h, 'acc', SStr(ACC))
+        self.hstate = hs['on_next']          # the handler that owns (assigns) the remainder; on_completed only reads it
+        bind(q, self.hstate, 'acc', SStr(ACC), role=lambda v: v == '')
         q.trace = T0; q.calls = []; q.pc = []
         self.path = q
         # the loop iterates over lines[0:-1]: remember that sequence for the invariant when the loop is reached
@@ -79,7 +80,7 @@ class LineUnframe(FnCase):
 
     def ensures(self, q, ret):
         eng = self.eng
-        acc1 = eng.to_str(q, get_cell(q, self.h, 'acc'))
+        acc1 = eng.to_str(q, get_cell(q, self.hstate, 'acc'))
         if self.handler == 'on_completed':
             return [('delivers_trailing_line_iff_non_empty', q.trace == If(Length(ACC) > 0, Concat(T0, Unit(em(OUT, Ev.Item(V.VStr(ACC)))), Unit(em(OUT, Ev.Done))),
                                                                            Concat(T0, Unit(em(OUT, Ev.Done)))))]
@@ -193,7 +194,7 @@ class LPUnframe(FnCase):
         self.eng = eng
         q, hs, obs = build_plain(eng, p, 'rxsci.framing.length_prefix', 'unframe', [self.P, self.order])
         self.h = hs['on_next']
-        set_cell(q, self.h, 'acc', SBytes(BACC))
+        bind(q, self.h, 'acc', SBytes(BACC), role=lambda v: v == b'')
         q.trace = T0; q.calls = []; q.pc = []
         self.path = q
         return self.h, [SBytes(B_)], {}
